@@ -205,6 +205,31 @@ def handle (op : String) (args : List String) : Option String :=
           pure (boolStr (m == n && (orig.zip got).all fun (s, t) =>
             (splatTo s).map (fun x => (E.of32 (E.to32 x)).toBits) == (splatTo t).map Float.toBits))
       | _ => none
+  | "c15.holds.splatply_rest", n :: cnt :: rest => do
+      -- PLY splat export of the higher-order harmonics: EVERY f_rest_k (k < cnt) of the cloud must come back,
+      -- each value as its float32 rounding.  args: n cnt <cnt*n original values, k-major> m p (k <m values>)*p
+      let n ← nat? n; let cnt ← nat? cnt
+      let orig ← floats? (rest.take (cnt * n))
+      if orig.length ≠ cnt * n then none
+      match rest.drop (cnt * n) with
+      | m :: p :: back => do
+          let m ← nat? m; let p ← nat? p
+          let E := floatEnv []
+          let rec go : Nat → List String → Option Bool
+            | 0, [] => some true
+            | 0, _ => some false
+            | j + 1, k :: vals => do
+                let k ← nat? k
+                let vs ← floats? (vals.take m)
+                if vs.length ≠ m then some false
+                else
+                  let want := ((orig.drop (k * n)).take n).map fun x => (E.of32 (E.to32 x)).toBits
+                  let ok := k == p - (j + 1) && k < cnt && want == vs.map Float.toBits
+                  (go j (vals.drop m)).map (ok && ·)
+            | _ + 1, [] => some false
+          let r ← go p back
+          pure (boolStr (m == n && p == cnt && r))
+      | _ => pure "false"
   | _, _ => handleSpz op args
 
 end Driver.C15
